@@ -12,6 +12,7 @@ import (
 	"fmt"
 	"net"
 	"os"
+	"runtime"
 	"sort"
 	"strings"
 	"sync"
@@ -22,9 +23,10 @@ import (
 	"github.com/refraction-networking/uquic/internal/verifmc/explore"
 	"github.com/refraction-networking/uquic/internal/verifmc/sim"
 	"github.com/refraction-networking/uquic/internal/verifmc/wiremon"
+	"github.com/refraction-networking/uquic/qlogwriter"
 )
 
-var c17Causes = []string{"local-close", "remote-close", "idle-timeout", "transport-close", "stateless-reset", "handshake-timeout", "dial-cancel", "keepalive-then-blackhole", "idle-timeout-sending", "fatal-transport-error"}
+var c17Causes = []string{"local-close", "remote-close", "idle-timeout", "transport-close", "stateless-reset", "handshake-timeout", "dial-cancel", "keepalive-then-blackhole", "idle-timeout-sending", "fatal-transport-error", "close-during-dial"}
 
 // blocked client calls
 // (the "#2" entries are a second concurrent caller of the same blocking call)
@@ -148,9 +150,44 @@ func c17Run(t *testing.T, cfg c17Config) c17Result {
 		}
 
 		// ---------------- causes during the handshake: only Dial is blocked
-		if cause == "handshake-timeout" || cause == "dial-cancel" {
+		if cause == "handshake-timeout" || cause == "dial-cancel" || cause == "close-during-dial" {
 			dctx, dcancel := context.WithCancel(ctx)
-			if cause == "handshake-timeout" {
+			var tClosed time.Duration = -1
+			closeNow := func() {
+				d.Close()
+				tClosed = since()
+			}
+			if cause == "close-during-dial" {
+				// the transport is shut down while Dial is in flight: from inside the application's
+				// Tracer callback (When 0), right after the first datagram left (When 1) or 20 ms
+				// later (When 2); the peer stays silent
+				w.Router.SetBlackhole(sim.S2C, true)
+				switch cfg.When {
+				case 0:
+					cconf.Tracer = func(context.Context, bool, quic.ConnectionID) qlogwriter.Trace {
+						// (no sleep here: a goroutine blocked on the transport's mutex is not durably
+						// blocked for synctest, the fake clock would never advance)
+						go closeNow()
+						for i := 0; i < 50; i++ {
+							runtime.Gosched()
+						}
+						return nil
+					}
+				default:
+					fired := false
+					w.Router.SetOnSend(func(ev sim.Event) {
+						if !fired {
+							fired = true
+							go func() {
+								if cfg.When == 2 {
+									time.Sleep(20 * time.Millisecond)
+								}
+								closeNow()
+							}()
+						}
+					})
+				}
+			} else if cause == "handshake-timeout" {
 				w.Router.SetBlackhole(sim.S2C, true) // the peer stays silent
 				if cfg.When > 0 {
 					w.Router.SetBlackhole(sim.C2S, true)
@@ -172,6 +209,13 @@ func c17Run(t *testing.T, cfg c17Config) c17Result {
 				res.class = "dial completed before the cancellation point"
 			} else if err == nil {
 				fail("dial-succeeded", "Dial returned no error")
+			} else if cause == "close-during-dial" {
+				if !errors.Is(err, quic.ErrTransportClosed) {
+					fail("dial-error", "Dial returned %v although the transport was closed while it was in flight, want ErrTransportClosed", err)
+				}
+				if tClosed >= 0 && since()-tClosed > 100*time.Millisecond {
+					fail("dial-slow", "Dial returned %v after Transport.Close had returned", since()-tClosed)
+				}
 			} else if cause == "dial-cancel" {
 				if !errors.Is(err, context.Canceled) {
 					fail("dial-error", "Dial returned %v, want context.Canceled", err)
@@ -657,6 +701,12 @@ func c17Configs(e explore.Env) ([]c17Config, string) {
 						}
 					}
 				}
+			case "close-during-dial":
+				for w := 0; w < 3; w++ {
+					for _, k := range []string{"plain", "chrome115"} {
+						cfgs = append(cfgs, c17Config{Cause: ci, When: w, Kind: k, Seed: seed})
+					}
+				}
 			case "keepalive-then-blackhole":
 				for ti := range c17Timings {
 					cfgs = append(cfgs, c17Config{Cause: ci, Calls: []int{0, 2}, When: 1, Timing: ti, Kind: "plain", Seed: seed})
@@ -682,7 +732,7 @@ func c17Configs(e explore.Env) ([]c17Config, string) {
 				}
 			}
 		}
-		return cfgs, fmt.Sprintf("close causes {local close, remote close, idle timeout, Transport.Close, stateless reset, fatal transport error (an authentic 1-RTT packet with STREAM data on a send-only stream)} x every set of <= %d concurrently blocked client calls out of %v x 3 positions (right after the handshake, 300 ms later, during a server-to-client transfer) + timing configurations + spec-driven client + 1 fault on the closing exchange; handshake timeout (silent peer) and dial cancellation at each of the first 8 datagrams; keep-alive answered for 5 idle periods then path death; path death while the application keeps writing every quarter idle period (3 timing configurations x plain/spec-driven x 2 call sets)", maxSet, c17Calls)
+		return cfgs, fmt.Sprintf("close causes {local close, remote close, idle timeout, Transport.Close, stateless reset, fatal transport error (an authentic 1-RTT packet with STREAM data on a send-only stream)} x every set of <= %d concurrently blocked client calls out of %v x 3 positions (right after the handshake, 300 ms later, during a server-to-client transfer) + timing configurations + spec-driven client + 1 fault on the closing exchange; handshake timeout (silent peer) and dial cancellation at each of the first 8 datagrams; Transport.Close while Dial is in flight (from inside the Tracer callback, after the first datagram, 20 ms later); keep-alive answered for 5 idle periods then path death; path death while the application keeps writing every quarter idle period (3 timing configurations x plain/spec-driven x 2 call sets)", maxSet, c17Calls)
 	}
 }
 
